@@ -300,11 +300,9 @@ const CMP_OPS: &[&str] = &["compare", "ordops", "eq", "sort_terms", "keysort", "
 
 /// signature of the open finding this (effective) case may run into, if any
 fn finding_of(c: &SCase, op: &str, ctor: &str, s_var: bool) -> Option<&'static str> {
-    let both_packed = is_packed(ctor) && is_packed(&c.qctor);
-    let pair_op = CMP_OPS.contains(&op) || matches!(op, "unify" | "unify_rev" | "unify_oc" | "unify_struct" | "not_unify");
-    if pair_op && both_packed && ((matches!(ctor, "append" | "suffix") && !s_var) || op == "head_tail") {
-        return Some(UNALIGNED_CMP_SIG);
-    }
+    // (the unaligned-offset finding UNALIGNED_CMP_SIG is fixed in the tree under test, commit 7936163:
+    // its input class is generated again; the stored witness is a regression replay)
+    let _ = (CMP_OPS, UNALIGNED_CMP_SIG, s_var);
     if matches!(op, "assert" | "index") && (c.s.contains('\0') || c.q.contains('\0')) {
         return Some(NUL_HEAD_SIG);
     }
@@ -323,8 +321,6 @@ fn avoid_findings(mut c: SCase) -> SCase {
         let ctor = effective_ctor(&c.ctor, &c.s).to_string();
         match finding_of(&c, &op, &ctor, s_var) {
             None => break,
-            // may crash the worker process: never generated (the stored witness covers it)
-            Some(UNALIGNED_CMP_SIG) => c.op = "walk".into(),
             Some(_) if c.k % 8 == 0 => break, // witness
             Some(NUL_HEAD_SIG) => c.op = "unify".into(),
             Some(_) => {
